@@ -24,7 +24,7 @@ EXPLANATION = (
     "converter only warns and drops them - so an attribute honoured by Rust but unknown to the converter is a violation; (narrowing) the ONNX loader's i64 -> i32 constant narrowing mentions both i32 bounds and the "
     "converter's every astype(np.int32) follows a clip to the i32 range or widens; (const-dtypes) every constant element "
     "type the converter accepts has an arm in the ONNX loader; (onnx-wire) the Rust ONNX parser accepts packed and unpacked "
-    "repeated scalars like the protobuf library the converter uses. Differences are violations unless listed in the reviewed exception table "
+    "repeated scalars like the protobuf library the converter uses; (rank-defaults) an omitted strides / pads / dilations attribute falls back to vec![k; n] with n taken from the node in the ONNX loader, the converter passes no fixed-length list literal as such a default, and a fixed-length default in the .rten reader (vec_from_attr) is used only for fields the converter always writes. Differences are violations unless listed in the reviewed exception table "
     "with the reason they are behaviour-neutral. Equality of the outputs of the two paths is NOT decided.")
 ASSUMPTIONS = ["attribute names are string literals at the accessor call sites on both sides (checked: a non-literal name is a violation)",
                "the .rten reader (rten_registry.rs) is a field-by-field copy of what the converter wrote (schema defaults are not compared)"]
@@ -58,6 +58,7 @@ def run(ctx):
     narrowing(ctx, fb, conv)
     const_dtypes(ctx, fb, conv)
     wire_repeated(ctx, fb)
+    rank_defaults(ctx, fb, conv, rt)
 
 
 # ---------------------------------------------------------------------------------------------------------------
@@ -87,7 +88,7 @@ def attr_calls(fb, f, seen=None, depth=3):
     return out
 
 
-def default_of(f, c):
+def _default_of(f, c):
     """literal default applied to the result of an attribute accessor call: follow the consumer chain"""
     cur = set([c.dest[0]]) if c.dest else set()
     seen = set()
@@ -117,24 +118,28 @@ def default_of(f, c):
                 if re.search(r'::unwrap_or$', cal) and len(c2.args) > 1:
                     a = c2.args[1]
                     if a[0] == 'k':
-                        return str(a[1])
+                        return str(a[1]), c2
                     og = f.origins(a)
                     cs = [o for o in og if o[0] == 'const']
                     if len(cs) == 1 and all(o[0] in ('const', 'named_const', 'agg', 'cast') for o in og):
-                        return str(cs[0][1])
-                    return 'expr'
+                        return str(cs[0][1]), c2
+                    return 'expr', c2
                 if re.search(r'::unwrap_or_default$', cal):
-                    return 'default()'
+                    return 'default()', c2
                 if re.search(r'::unwrap_or_else$|::map_or$|::map_or_else$', cal):
-                    return 'expr'
+                    return 'expr', c2
                 if re.search(r'::(ok_or|ok_or_else|expect|unwrap)$', cal):
-                    return 'required'
+                    return 'required', c2
                 if PASS.search(cal) and c2.dest:
                     nxt.add(c2.dest[0])
         if not nxt:
             break
         cur = nxt
-    return None
+    return None, None
+
+
+def default_of(f, c):
+    return _default_of(f, c)[0]
 
 
 def rust_table(fb):
@@ -508,3 +513,175 @@ def narrowing(ctx, fb, conv):
              'all %d `.astype(np.int32)` sites in the converter package follow a clip to the int32 range or widen a narrower type' % sites if okp else
              '`.astype(np.int32)` without a preceding clip to the int32 range at %s: numpy wraps out-of-range int64 values (2**63-1 -> -1) where the ONNX loader saturates' % ', '.join(badp[:4]),
              'rten-convert/rten_convert/converter.py')
+
+
+# ---------------------------------------------------------------------------------------------------------------
+RANK_ATTRS = ('strides', 'dilations', 'pads')
+RANK_FIELDS = {'strides': 'strides', 'dilations': 'dilations', 'pads': 'pads', 'outputPadding': 'output_padding', 'kernelSize': 'kernel_size'}
+
+
+def _unwrap_call(f, c):
+    """the unwrap_or* call that ends the consumer chain of an accessor call's result"""
+    v, c2 = _default_of(f, c)
+    return c2 if c2 is not None and re.search(r'::unwrap_or(_default|_else)?$', c2.callee or '') else None
+
+
+def _closure_fills_by_length(fb, f, op):
+    """operand is a closure whose body builds vec![k; n] with n not a constant"""
+    r = f.resolve_copy(op)
+    if not (r[0] == 'rv' and r[1][0] == 'agg' and r[1][1] == 'closure'):
+        return False
+    g = fb.fn(r[1][2])
+    if g is None or not g.has_mir():
+        return False
+    for k in g.calls():
+        if (k.callee or '').endswith('vec::from_elem') and len(k.args) >= 2 and k.args[1][0] != 'k':
+            if not all(o[0] == 'const' for o in g.origins(k.args[1])):
+                return True
+    return False
+
+
+def rank_defaults(ctx, fb, conv, rt):
+    """strides / pads / dilations have one entry per spatial axis: a fall-back for an omitted one must take its length from the operator"""
+    R = 'C20.rank-defaults'
+    n = 0
+    # (1) Rust ONNX loader
+    seen = set()
+    for (dom, name), e in sorted(rt.items(), key=lambda kv: str(kv[0])):
+        for (k, an, dv, loc) in e['attrs']:
+            if k != 'get' or an not in RANK_ATTRS:
+                continue
+            site = loc.rsplit(':', 1)[0] if loc else loc
+            if (an, loc) in seen:
+                continue
+            seen.add((an, loc))
+    by_site = {}
+    for imp in fb.impls(trait=RO):
+        f = fb.fn(imp['items']['read'][1])
+        for kind, an, c, ff in attr_calls(fb, f):
+            if KIND[kind] == 'get' and an in RANK_ATTRS and kind != 'require':
+                by_site.setdefault((ff.path, an), (ff, c))
+    for (path, an), (ff, c) in sorted(by_site.items()):
+        n += 1
+        u = _unwrap_call(ff, c)
+        short = _short_fn(path)
+        key = 'onnx-loader:%s.%s' % (short, an)
+        if u is None:
+            ctx.inst(R, key, True, 'no fall-back: the attribute is optional in the operator itself', c.loc())
+            continue
+        cal = u.callee or ''
+        if cal.endswith('unwrap_or_else') and len(u.args) > 1 and _closure_fills_by_length(fb, ff, u.args[1]):
+            ctx.inst(R, key, True, 'omitted %s falls back to vec![k; n] with n taken from the node (kernel_shape length)' % an, u.loc())
+        else:
+            ctx.inst(R, key, False, 'omitted `%s` falls back to %s, which does not have one entry per spatial axis of the operator: ONNX defaults it to 1 (0 for pads) along each axis, and the converter writes exactly that, so the ONNX file and its .rten conversion behave differently (the ONNX one fails with a length mismatch)' % (an, 'an empty list' if cal.endswith('unwrap_or_default') else 'a fixed value'), u.loc())
+    # (2) converter: no fixed-length literal as the default of a per-axis attribute; collect fields it may leave unset
+    tree = pyast_mod.parse(open(conv).read())
+    may_be_none = set()
+
+    def is_fixed_list(node):
+        return isinstance(node, (pyast_mod.List, pyast_mod.Tuple)) and len(node.elts) > 0 and all(isinstance(e, pyast_mod.Constant) for e in node.elts)
+
+    def default_arg(call, pos, kw='default'):
+        if len(call.args) > pos:
+            return call.args[pos]
+        for k in call.keywords:
+            if k.arg == kw:
+                return k.value
+        return None
+
+    def maybe_none(node):
+        if isinstance(node, pyast_mod.Constant) and node.value is None:
+            return True
+        if isinstance(node, pyast_mod.Call):
+            fn = node.func
+            nm = fn.attr if isinstance(fn, pyast_mod.Attribute) else getattr(fn, 'id', '')
+            if nm == 'read_dilations':
+                d = default_arg(node, 1)
+                return d is None or maybe_none(d)
+            if nm == 'get_attr':
+                d = default_arg(node, 2)
+                return d is None or maybe_none(d)
+        return False
+
+    for node in pyast_mod.walk(tree):
+        if isinstance(node, pyast_mod.Call):
+            fn = node.func
+            nm = fn.attr if isinstance(fn, pyast_mod.Attribute) else getattr(fn, 'id', '')
+            if nm == 'get_attr' and node.args and isinstance(node.args[0], pyast_mod.Constant) and node.args[0].value in RANK_ATTRS:
+                d = default_arg(node, 2)
+                n += 1
+                bad = d is not None and is_fixed_list(d)
+                ctx.inst(R, 'converter:get_attr(%s)@%s' % (node.args[0].value, _enclosing(tree, node)), not bad,
+                         'default of `%s` is not a fixed-length literal' % node.args[0].value if not bad else
+                         'the converter defaults an omitted `%s` to the literal %s whatever the rank of the operator: a 1-D Conv / ConvTranspose / pooling node that omits it converts to a model that fails at run time ("expected 1 stride value") while the ONNX file runs' % (node.args[0].value, pyast_mod.unparse(d)), 'converter.py:%d' % node.lineno)
+            if nm == 'read_dilations':
+                d = default_arg(node, 1)
+                n += 1
+                bad = d is not None and is_fixed_list(d)
+                ctx.inst(R, 'converter:read_dilations@%s#%d' % (_enclosing(tree, node), _ordinal(tree, node, 'read_dilations')), not bad,
+                         'dilations default is not a fixed-length literal' if not bad else
+                         'the converter defaults omitted dilations to the literal %s whatever the rank of the operator' % pyast_mod.unparse(d), 'converter.py:%d' % node.lineno)
+        if isinstance(node, pyast_mod.Assign) and len(node.targets) == 1 and isinstance(node.targets[0], pyast_mod.Attribute) \
+                and isinstance(node.targets[0].value, pyast_mod.Name) and node.targets[0].value.id == 'attrs' and node.targets[0].attr in RANK_FIELDS:
+            if maybe_none(node.value):
+                may_be_none.add((_case_attrs_class(tree, node), RANK_FIELDS[node.targets[0].attr]))
+    # (3) .rten reader: a per-axis field the converter may leave unset must not be read with a fixed-length default
+    m = 0
+    for f in fb.fns(crate='rten'):
+        if 'rten_registry' not in f.path or not f.has_mir():
+            continue
+        for c in f.calls():
+            mm = re.search(r'schema_generated::(\w+)Attrs::<.*>::(strides|dilations|pads|kernel_size|output_padding)$', c.callee or '')
+            if not mm:
+                continue
+            cons = [k for k in f.calls() if k.args and gi_from(f, k.args[0], c)]
+            fixed = [k for k in cons if (k.callee or '').endswith('rten_registry::vec_from_attr')]
+            if not fixed:
+                continue
+            m += 1
+            cls, field = mm.group(1) + 'AttrsT', mm.group(2)
+            unset = (cls, field) in may_be_none
+            ctx.inst(R, 'rten-reader:%s.%s@%s' % (mm.group(1), field, f.path.split(' as ')[0].split('::')[-1].strip('<>')), not unset,
+                     'fixed-length default is unreachable for converted models: the converter always writes %s.%s' % (cls, field) if not unset else
+                     'the .rten reader gives an absent %s.%s a fixed-length default, but the converter leaves the field unset when the ONNX node omits the attribute: a 1-D node then gets a 2-D value and fails at run time, while the ONNX file runs' % (mm.group(1), field), c.loc())
+    ctx.floor(R, 'per-axis attribute fall-backs judged (ONNX loader + converter)', n, 8)
+    ctx.floor(R, '.rten reader fixed-length defaults cross-checked against the converter', m, 5)
+    ctx.floor(R, 'converter fields that may be left unset', len(may_be_none), 1)
+
+
+def _short_fn(path):
+    base = path.split('::{closure')[0]
+    m = re.match(r'^<(.+?) as .*>::(\w+)$', base)
+    if m:
+        return m.group(1).split('::')[-1] + '::' + m.group(2)
+    return base.split('::')[-1]
+
+
+def gi_from(f, op, call):
+    r = f.resolve_copy(op)
+    return r[0] == 'call' and r[1].bb == call.bb
+
+
+def _enclosing(tree, node):
+    best = None
+    for fn in pyast_mod.walk(tree):
+        if isinstance(fn, (pyast_mod.FunctionDef,)) and fn.lineno <= node.lineno <= (fn.end_lineno or fn.lineno):
+            if best is None or fn.lineno > best.lineno:
+                best = fn
+    return best.name if best else '<module>'
+
+
+def _ordinal(tree, node, name):
+    calls = sorted((c.lineno, c.col_offset) for c in pyast_mod.walk(tree) if isinstance(c, pyast_mod.Call) and (getattr(c.func, 'attr', None) == name or getattr(c.func, 'id', None) == name))
+    return calls.index((node.lineno, node.col_offset)) + 1
+
+
+def _case_attrs_class(tree, node):
+    """the sg.<X>AttrsT() class assigned to `attrs` in the match case that contains the statement"""
+    for mc in pyast_mod.walk(tree):
+        if isinstance(mc, pyast_mod.match_case) and mc.body and mc.body[0].lineno <= node.lineno <= (mc.body[-1].end_lineno or mc.body[-1].lineno):
+            for st in mc.body:
+                if isinstance(st, pyast_mod.Assign) and isinstance(st.targets[0], pyast_mod.Name) and st.targets[0].id == 'attrs' and isinstance(st.value, pyast_mod.Call):
+                    fn = st.value.func
+                    return fn.attr if isinstance(fn, pyast_mod.Attribute) else getattr(fn, 'id', '?')
+    return '?'
